@@ -305,6 +305,9 @@ def run(ctx):
     # ASCII separator between items is whitespace only
     ctx.ob("F-SKELETON", "ASCII spaces are whitespace only", E["space"]["format_terms"].strip() == "" and E["space"]["format_items"].strip() == ""
            and T.lex["FORMAT_ASCII"]["space"]["format_terms"].strip() == "" and T.lex["FORMAT_ASCII"]["space"]["format_items"].strip() == "", "")
+    # component order is preserved end to end (formatter, templates, parsers, fold, accessors)
+    import maps as _maps
+    _maps.rule_O_ORDER(ctx)
     ctx.undecided = ["that the reference grammar derives the same tree as the lexical parser for every output (equivalence of two parsers over all strings)",
                      "PEG ordered-choice subtleties (e.g. the statement alternative tried before compound) are not modelled"]
     ctx.assumptions = ["unicodedata general categories P*/S* = pest's PUNCTUATION|SYMBOL", "the frozen reference lexicon was transcribed correctly from the OpenNARS wiki grammar"]
